@@ -384,61 +384,81 @@ def run(ctx):
         ctx.require(r.ok, "TLC run %s failed in the model: %s %s\n%s" % (k, r.error, r.violated, r.stdout[-1500:]))
     ctx.exhaustive = True
 
-    # ---- 2. static binding
+    # ---- 2. static binding (configuration by configuration; only the quick configurations are kept for the end-to-end part)
+    from .. import aio
     table = {}
     insts = []
-    for name in STATIC[tier]:
-        r = res[("static", name)]
-        lines = [x for x in r.printed_json() if isinstance(x, dict) and "inst" in x]
-        ninit = r.coverage.get("Init", [0, 0])[0]
-        ctx.require(len(lines) == ninit and len(lines) > 100 and r.distinct >= 2 * ninit,
-                    "emission incomplete on %s: %d instances written, %d initial states, %d states" % (name, len(lines), ninit, r.distinct))
-        ctx.count("instances:%s" % name, len(lines))
-        ctx.count("model_states:%s" % name, r.distinct)
-        for x in lines:
-            k = _inst_key(x["inst"])
-            if k not in table:
-                table[k] = x
-                insts.append(x)
-    ctx.require(os.path.exists(of), "Q_DataLocality wrote no answers")
-    with open(of) as f:
-        answers = json.load(f)
-    ctx.require(len(answers) == len(queries), "Q_DataLocality answered %d of %d" % (len(answers), len(queries)))
-
     classes = {}
+    tally = {"n": 0, "bylist": 0, "stat": 0}
 
-    async def static_all():
-        n = 0
-        for x in insts:
-            n += 1
+    def parse_lines(stdout):
+        for line in stdout.splitlines():
+            line = line.strip()
+            if line.startswith('"{') and line.endswith('"'):
+                try:
+                    x = json.loads(json.loads(line))
+                except Exception:
+                    continue
+                if isinstance(x, dict) and "inst" in x:
+                    yield x
+
+    async def static_some(items, src):
+        for x in items:
+            tally["n"] += 1
+            n = tally["n"]
             inst = x["inst"]
             variant = (ctx.seed * 7 + n) % 12
-            cls = await D.check_static(ctx, inst, x, variant, "enum")
-            classes[cls] = classes.get(cls, 0) + 1
-            ctx.case(("s", n), nontrivial=cls not in ("fallback",))
+            cls = await D.check_static(ctx, inst, x, variant, src)
+            key = cls if src == "enum" else "q:" + cls
+            classes[key] = classes.get(key, 0) + 1
+            ctx.case((src, n), nontrivial=cls not in ("fallback",))
+            tally["bylist"] += 1 if x["bylist"] else 0
+            tally["stat"] += 1 if x["stat"] else 0
             if (cls == "bydata" and len(inst["toks"]) == 2 and len(inst["reg"]) == 2 and len(inst["avail"]) == 3 and len(ctx.samples) < 2
                     and all(t["kind"] != "plain" for t in inst["toks"]) and inst["toks"][0]["w"] < inst["toks"][1]["w"]
                     and inst["reg"][0]["s"] != inst["reg"][1]["s"] and inst["reg"][0]["i"] != inst["reg"][1]["i"]):
                 ctx.sample({"instance": inst, "spec_acceptable": x["contract"], "spec_weights": x["w"]})
-        for q, a in zip(queries, answers):
-            n += 1
-            variant = (ctx.seed * 5 + n) % 12
-            cls = await D.check_static(ctx, q, a, variant, "query")
-            classes["q:" + cls] = classes.get("q:" + cls, 0) + 1
-            ctx.case(("q", n), nontrivial=cls not in ("fallback",))
-        return n
 
-    from .. import aio
-    n_static, exc = aio.run(static_all(), timeout=None)
+    seen_keys = set()
+    for name in STATIC[tier]:
+        r = res[("static", name)]
+        keep = name in STATIC["quick"]
+        lines = []
+        nlines = 0
+        for x in parse_lines(r.stdout):
+            nlines += 1
+            k = _inst_key(x["inst"])
+            if k in seen_keys:
+                continue
+            seen_keys.add(k)
+            lines.append(x)
+            if keep:
+                table[k] = x
+                insts.append(x)
+        r.stdout = ""          # hundreds of megabytes in the thorough tier
+        ninit = r.coverage.get("Init", [0, 0])[0]
+        ctx.require(nlines == ninit and nlines > 100 and r.distinct >= 2 * ninit,
+                    "emission incomplete on %s: %d instances written, %d initial states, %d states" % (name, nlines, ninit, r.distinct))
+        ctx.count("instances:%s" % name, nlines)
+        ctx.count("model_states:%s" % name, r.distinct)
+        _, exc = aio.run(static_some(lines, "enum"), timeout=None)
+        if exc is not None:
+            raise exc
+        del lines
+    ctx.require(os.path.exists(of), "Q_DataLocality wrote no answers")
+    with open(of) as f:
+        answers = json.load(f)
+    ctx.require(len(answers) == len(queries), "Q_DataLocality answered %d of %d" % (len(answers), len(queries)))
+    _, exc = aio.run(static_some([dict(a, inst=q) for q, a in zip(queries, answers)], "query"), timeout=None)
     if exc is not None:
         raise exc
-    ctx.impl_trace(n_static)
+    ctx.impl_trace(tally["n"])
     for c, v in sorted(classes.items()):
         ctx.count("static:%s" % c, v)
     for need in ("bydata", "fallback", "none", "raise", "q:bydata", "q:fallback"):
         ctx.require(classes.get(need, 0) > 0 or ctx.violations or ctx.known_hits, "vacuous: no instance of class %s" % need)
-    ctx.count("instances_with_list_only_data", sum(1 for x in insts if x["bylist"]))
-    ctx.count("instances_with_size_io", sum(1 for x in insts if x["stat"]) + sum(1 for a in answers if a["stat"]))
+    ctx.count("instances_with_list_only_data", tally["bylist"])
+    ctx.count("instances_with_size_io", tally["stat"])
 
     # ---- 3. dynamic binding
     behaviours = []
